@@ -9,7 +9,7 @@ From MM Require Import lib.ListSet lib.Values model.Heap model.Elig model.Search
   gen.Gen_Search proofs.GroupSpecs proofs.SearchBridge proofs.ExhaustiveProofs proofs.GreedyProofs proofs.TotalityProofs
   proofs.GreedyTermination.
 Import ListNotations.
-From MM Require Import gen.Gen_HeapDict gen.Gen_Exhaustive gen.Gen_Greedy proofs.ExhaustiveBridge proofs.GreedyBridge.
+From MM Require Import gen.Gen_HeapDict gen.Gen_Exhaustive gen.Gen_Greedy gen.Gen_Design proofs.ExhaustiveBridge proofs.GreedyBridge proofs.DesignGuard.
 
 Theorem C09_within_constraints_never_divides_by_zero :
   forall (V : Type) (O : vops V) A (par : spar V) shareS T C,
@@ -52,6 +52,31 @@ Theorem C09_generated_treat_guard : forall n, gen_treatment_group_generator_rais
 Proof. exact bridge_treat_raises. Qed.
 Theorem C09_generated_control_guard : forall A T, gen_control_group_generator_raises A T = control_groups_raises A T.
 Proof. exact bridge_control_raises. Qed.
+
+(* the design constructor (TBRMMDesign.__post_init__, regenerated: gen/Gen_Design.v) raises ValueError exactly for an
+   empty or overlapping pair of groups; it never does for the groups of a design either translated search stores,
+   so the constructor calls inside the searches and inside search_results cannot raise *)
+Theorem C09_design_constructor_accepts_legal_groups :
+  forall (es : list elig) (T C : set), legal es T C -> gen_design_raises T C = false.
+Proof. exact legal_groups_pass_the_design_guard. Qed.
+Theorem C09_translated_exhaustive_search_never_trips_the_constructor :
+  forall (V K : Type) (O : vops V) (ltk : K -> K -> bool) (es : list elig) (par : spar V)
+         (shareS optB : set -> V) (bud : set -> set -> V) (score0 : set -> set -> K) (replace_inv : K -> V -> K) d,
+    In d (dd_get (gen_exhaustive_search O ltk (assignments_of es) par shareS optB bud score0 replace_inv) 0%Z) ->
+    gen_design_raises (fst (des_groups d)) (snd (des_groups d)) = false.
+Proof.
+  intros. eapply legal_groups_pass_the_design_guard. eapply pushed_legal, results_are_pushed.
+  rewrite <- surjective_pairing. eapply gen_exhaustive_in; eassumption.
+Qed.
+Theorem C09_translated_greedy_search_never_trips_the_constructor :
+  forall (V K : Type) (O : vops V) (ltk : K -> K -> bool) (es : list elig) (par : spar V)
+         (shareS : set -> V) (bud : set -> set -> V) (gkey : set -> set -> K) (zero_key : K) (fuel : nat) r d,
+    gen_greedy_search O ltk (assignments_of es) par shareS bud gkey zero_key fuel = Some r -> In d (dd_get r 0%Z) ->
+    gen_design_raises (fst (des_groups d)) (snd (des_groups d)) = false.
+Proof.
+  intros until d. intros Hr Hd. destruct (gen_greedy_in O ltk _ par shareS bud gkey zero_key fuel r d Hr Hd) as [ds [Hg Hin]].
+  eapply legal_groups_pass_the_design_guard. eapply greedy_sound; [exact Hg|]. rewrite <- surjective_pairing. exact Hin.
+Qed.
 
 (* the greedy hill climb terminates: scores in a total order, finitely many score values (one per
    pair of geo sets); a fuel above the initial potential yields a result, and more fuel never
@@ -124,3 +149,6 @@ Print Assumptions C09_translated_exhaustive_search_empty_when_infeasible.
 Print Assumptions C09_translated_exhaustive_search_no_admissible_size.
 Print Assumptions C09Z.C09_translated_greedy_search_terminates.
 Print Assumptions C09Z.C09_translated_greedy_search_independent_of_fuel.
+Print Assumptions C09_design_constructor_accepts_legal_groups.
+Print Assumptions C09_translated_exhaustive_search_never_trips_the_constructor.
+Print Assumptions C09_translated_greedy_search_never_trips_the_constructor.
